@@ -204,6 +204,9 @@ func runC07(c *Ctx) {
 					if _, ok := u.(*ssa.DebugRef); ok {
 						continue
 					}
+					if _, ok := u.(*ssa.Return); ok && u.Parent() != fn {
+						continue // the return of a spliced helper hands the value on, it does not use it
+					}
 					if b, ok := u.(*ssa.BinOp); ok && b.Op == token.LSS || ok && b.Op == token.GEQ {
 						if (b.X == rv && b.Y == ssa.Value(sizeP)) || (b.Y == rv && b.X == ssa.Value(sizeP)) {
 							continue
